@@ -160,6 +160,7 @@ pub fn run_family<F: Family>(f: &F, cfg: &RunCfg) -> Agg {
                     let base = f.generate(&mut rng, cfg.tier, idx);
                     agg.base_scenarios += 1;
                     let mut sub: u64 = 0;
+                    let tb = std::time::Instant::now();
                     f.execute_all(&base, &mut |sc, out| {
                         agg.evaluations += 1;
                         agg.steps += out.steps;
@@ -193,6 +194,9 @@ pub fn run_family<F: Family>(f: &F, cfg: &RunCfg) -> Agg {
                         }
                         sub += 1;
                     });
+                    if std::env::var_os("KSIM_SLOW").is_some() && tb.elapsed().as_secs_f64() > 2.0 {
+                        eprintln!("slow: family {} run_index {} took {:.1}s ({} executions)", f.name(), idx, tb.elapsed().as_secs_f64(), sub);
+                    }
                 }
                 total.lock().unwrap().merge(agg);
             });
